@@ -924,6 +924,7 @@ _REFUSALS_TABLE_SLIP = '        symmetry = self.config[\'symmetry\']\n        is
 _REFUSALS_TABLE_OK = '        symmetry = self.config[\'symmetry\']\n        is_complex = self.config[\'complex\']\n        zero_det = self.config[\'determinant\'] == 0\n        unit_det = self.config[\'determinant\'] == 1\n        odd = self.config[\'dimension\'] % 2 == 1\n        traceless_2x2 = self.config[\'traceless\'] and self.config[\'dimension\'] == 2\n        unsupported = (\n            (zero_det and self.config[\'traceless\'],\n             "Unable to generate zero determinant traceless matrices"),\n            (zero_det and symmetry == \'antisymmetric\' and is_complex,\n             "Unable to generate complex zero determinant antisymmetric matrices"),\n            (zero_det and symmetry == \'antisymmetric\' and not odd,\n             "Unable to generate real zero determinant antisymmetric matrices in even dimensions"),\n            (unit_det and traceless_2x2 and symmetry == \'diagonal\' and not is_complex,\n             "No real, traceless, unit-determinant, diagonal 2x2 matrix exists"),\n            (unit_det and traceless_2x2 and symmetry == \'symmetric\' and not is_complex,\n             "No real, traceless, unit-determinant, symmetric 2x2 matrix exists"),\n            (unit_det and traceless_2x2 and symmetry == \'hermitian\',\n             "No traceless, unit-determinant, Hermitian 2x2 matrix exists"),\n            (unit_det and odd and symmetry == \'antisymmetric\',\n             "No unit-determinant antisymmetric matrix exists in odd dimensions"),\n            (unit_det and odd and symmetry == \'antihermitian\',\n             "No unit-determinant antihermitian matrix exists in odd dimensions"),\n        )\n        for applies, message in unsupported:\n            if applies:\n                raise ConfigError(message)\n\n'
 _IDENT_SLIP = [("        self.config['shape'] = (self.config['dimension'], self.config['dimension'])\n", "        self.config['shape'] = (self.config['dimension'], self.config['dimension'])\n\n    def scaled_identity(self, scale):\n        field = complex if self.config['complex'] else float\n        return (scale * np.eye(self.config['dimension'])).astype(field)\n"), ("        array = scaling * np.eye(self.config['dimension'])\n", '        array = self.scaled_identity(scaling)\n'), ('            working = working - trace / dim * np.eye(dim)\n', '            working = working - self.scaled_identity(trace / dim)\n'), ("        return array - np.eye(self.config['dimension']) * eigenvalue\n", '        return array - self.scaled_identity(eigenvalue)\n')]
 _IDENT_OK = [("        self.config['shape'] = (self.config['dimension'], self.config['dimension'])\n", "        self.config['shape'] = (self.config['dimension'], self.config['dimension'])\n\n    def scaled_identity(self, scale):\n        return scale * np.eye(self.config['dimension'])\n"), ("        array = scaling * np.eye(self.config['dimension'])\n", '        array = self.scaled_identity(scaling)\n'), ('            working = working - trace / dim * np.eye(dim)\n', '            working = working - self.scaled_identity(trace / dim)\n'), ("        return array - np.eye(self.config['dimension']) * eigenvalue\n", '        return array - self.scaled_identity(eigenvalue)\n')]
+_REFUSALS_METHOD_OK = '        for refused, message in self._refusals():\n            if refused:\n                raise ConfigError(message)\n\n    def _refusals(self):\n        """Ordered (applies, message) pairs for the option combinations we refuse"""\n        symmetry = self.config[\'symmetry\']\n        is_complex = self.config[\'complex\']\n        zero_det = self.config[\'determinant\'] == 0\n        unit_det = self.config[\'determinant\'] == 1\n        odd = self.config[\'dimension\'] % 2 == 1\n        traceless_2x2 = self.config[\'traceless\'] and self.config[\'dimension\'] == 2\n        unsupported = (\n            (zero_det and self.config[\'traceless\'],\n             "Unable to generate zero determinant traceless matrices"),\n            (zero_det and symmetry == \'antisymmetric\' and is_complex,\n             "Unable to generate complex zero determinant antisymmetric matrices"),\n            (zero_det and symmetry == \'antisymmetric\' and not odd,\n             "Unable to generate real zero determinant antisymmetric matrices in even dimensions"),\n            (unit_det and traceless_2x2 and symmetry == \'diagonal\' and not is_complex,\n             "No real, traceless, unit-determinant, diagonal 2x2 matrix exists"),\n            (unit_det and traceless_2x2 and symmetry == \'symmetric\' and not is_complex,\n             "No real, traceless, unit-determinant, symmetric 2x2 matrix exists"),\n            (unit_det and traceless_2x2 and symmetry == \'hermitian\',\n             "No traceless, unit-determinant, Hermitian 2x2 matrix exists"),\n            (unit_det and odd and symmetry == \'antisymmetric\',\n             "No unit-determinant antisymmetric matrix exists in odd dimensions"),\n            (unit_det and odd and symmetry == \'antihermitian\',\n             "No unit-determinant antihermitian matrix exists in odd dimensions"),\n        )\n        return unsupported\n\n'
 _LOOP_HEAD = "        loops = 0\n        while loops < 100:\n            loops += 1\n"
 
 _TRI_OLD = "        if self.config['triangular'] == 'upper':\n            return np.triu(array)\n        elif self.config['triangular'] == 'lower':\n            return np.tril(array)\n        return array\n\n\n"
@@ -1049,6 +1050,8 @@ _POSITIVE_STARRED = """    if thetype == int:
 """
 
 BENIGN = [
+    Benign('refusals-table-built-by-a-method', MATRIX, _REFUSALS_OLD, _REFUSALS_METHOD_OK),
+    Benign('rf-tile-by-coefficient-shape', SAMPLING, "xarray = np.tile(xvec, (output_dim, num_terms, 1))", "xarray = np.tile(xvec, (A.shape[0], A.shape[1], 1))"),
     Benign('refusals-as-ordered-table-and-loop', MATRIX, _REFUSALS_OLD, _REFUSALS_TABLE_OK),
     Benign('scaled-identity-helper-without-cast', MATRIX, _IDENT_OK, None),
     Benign('positive-validator-with-starred-bounds', VALID, _POSITIVE_OLD, _POSITIVE_STARRED),
